@@ -1283,7 +1283,7 @@ std::ostream& expression_t::print(std::ostream& os, bool old) const
         if (get_type().is(Constants::DOUBLE)) {
             os << get_double_value();
         } else if (get_type().is_string()) {
-            os << get_string_value();
+            os << std::quoted(get_string_value());  // as read by make_constant(const std::string&)
         } else if (get_type().is_integer()) {
             os << std::get<int32_t>(data->value);
         } else {
@@ -1568,7 +1568,7 @@ std::ostream& expression_t::print(std::ostream& os, bool old) const
             get(1).print(os << "{", old) << "} -> {";
             get(2).print(os, old) << "}";
         }
-        get(0).print(os << "(\"", old) << "\")";
+        get(0).print(os << "(", old) << ")";  // the path is a string constant and prints its own quotes
         break;
 
     case PO_CONTROL:
